@@ -230,6 +230,29 @@ impl Layer {
         self.sixels.retain(|x| !x.as_rectangle(font_dims).is_inside(pos) || pos.y != x.position.y);
     }
 
+    /// Writes a cell without consulting the lock / visibility / alpha-lock flags of the layer.
+    /// Used by undo records to put back exactly what they recorded (the flags were honoured when the edit was made).
+    pub(crate) fn set_char_unchecked(&mut self, pos: impl Into<Position>, attributed_char: AttributedChar) {
+        let pos = pos.into();
+        if pos.x < 0 || pos.y < 0 || pos.x >= self.get_width() || pos.y >= self.get_height() {
+            return;
+        }
+        if pos.y >= self.lines.len() as i32 {
+            self.lines.resize(pos.y as usize + 1, Line::create(self.size.width));
+        }
+        self.lines[pos.y as usize].set_char(pos.x, attributed_char);
+    }
+
+    /// Puts a recorded snapshot back at `target_pos`, cell by cell; stored content outside the snapshot is kept.
+    pub(crate) fn restore(&mut self, target_pos: Position, snapshot: &Layer) {
+        for y in 0..snapshot.get_height() {
+            for x in 0..snapshot.get_width() {
+                let pos = Position::new(x, y);
+                self.set_char_unchecked(pos + target_pos, snapshot.get_char(pos));
+            }
+        }
+    }
+
     /// .
     ///
     /// # Panics
